@@ -180,6 +180,9 @@ func (h *Hist) genProposal(ctx sdk.Context) {
 	case 0, 1: // RegisterCoin
 		cands := append(append([]string{}, extraDenoms...), "ausdc", "aeth")
 		d := cands[h.r.Intn(len(cands))]
+		if h.r.Chance(1, 3) {
+			d = h.r.PickStr("ucoin", "UCOIN") // denominations are case-sensitive: two different coins
+		}
 		h.submit(ctx, "register-coin", &erc20types.MsgRegisterCoin{Authority: h.govAddr, Title: "t", Description: "d", Metadata: metadataFor(d)}, false)
 	case 2: // RegisterERC20
 		if len(h.erc20s) == 0 {
@@ -233,6 +236,8 @@ func (h *Hist) genProposal(ctx sdk.Context) {
 		p := a.CSRKeeper.GetParams(ctx)
 		if !p.EnableCsr {
 			p.EnableCsr = h.r.Chance(3, 4) // a chain that started with csr disabled gets it enabled by governance
+		} else if h.r.Chance(1, 4) {
+			p.EnableCsr = false // and governance can switch it off again (the Turnstile stays deployed)
 		}
 		p.CsrShares = sdkmath.LegacyNewDecWithPrec(int64(h.r.Intn(101)), 2)
 		if h.r.Chance(1, 10) {
@@ -333,6 +338,16 @@ func (h *Hist) genUserTx(ctx sdk.Context) {
 		rcpt := h.cfg.Addrs[i].String()
 		if r.Chance(1, 4) {
 			rcpt = h.cfg.Addrs[h.user()].String()
+		}
+		if r.Chance(1, 8) {
+			// special recipients: a pool's reserve account (a donation: allowed) or a module account (refused)
+			if r.Chance(2, 3) {
+				q := pools[r.Intn(len(pools))]
+				rcpt = q.EscrowAddress
+			} else {
+				names := ModuleNames()
+				rcpt = authtypes.NewModuleAddress(names[r.Intn(len(names))]).String()
+			}
 		}
 		small := sdkmath.NewInt(int64(1 + r.Intn(1000000)))
 		if r.Chance(1, 2) {
